@@ -30,7 +30,7 @@ ASSUMPTIONS = ["callee contracts: centred DFT (C05), resize (C09), interpolate/g
                "oversamp >= 1, width > 0 symbolic reals; np.pi an uninterpreted positive real; extents >= 1",
                "accuracy bound (3 % / 0.3 %) is NOT proved: bounded native probe against the exact non-uniform DFT"]
 TRUSTED = ["linear-form domain of pyvc/snp.py", "summation matcher (structural)"]
-BOUNDS = {"ndim": "1, 2 (3 thorough)", "batch axes": "0, 1", "points axes": "1 (2 in one variant)",
+BOUNDS = {"image extents": ">= 2 symbolic (extent-1 axes only in the native probe)", "ndim": "1, 2 (3 thorough)", "batch axes": "0, 1", "points axes": "1 (2 in one variant)",
           "native probe": "shapes <= 33 (1-D), <= 12x9, <= 6x6x6; 40 points; oversamp in {1.25,1.5,2}; width in {3,4,5,6}"}
 NOT_DECIDED = ["relative l2 error of nufft against the exact NUDFT (bounded probe only)", "estimate_shape (nufft_adjoint with oshape=None)", "floating point"]
 
@@ -135,6 +135,9 @@ def load_fourier():
 
 # ----------------------------------------------------------------------------- the mechanism, from the property text
 def _beta(width, oversamp):
+    if not isinstance(width, Sym) and not isinstance(oversamp, Sym):
+        # concrete parameters: the same formula in the same (binary floating-point) arithmetic the interpreter uses
+        return snp.NP.pi * (((width / oversamp) * (oversamp - 0.5)) ** 2 - 0.8) ** 0.5
     return snp.NP.pi * core.sym_sqrt(((width / oversamp) * (oversamp - Sym(z3.RealVal("1/2")))) ** 2 - Sym(z3.RealVal("4/5")))
 
 
@@ -145,12 +148,12 @@ def _os(oversamp, n):
 def _apod_array(N, osN, width, beta, ndim, lead):
     """a[t] = prod_d s_d/sinh(s_d) on the last ndim axes (broadcast over `lead` leading axes)"""
     def el(k):
-        w = Sym(z3.RealVal(1))
+        w = LF(snp.C1)
         for d in range(ndim):
             t = Sym(k[lead + d])
             s = core.sym_sqrt(beta ** 2 - (snp.NP.pi * width * (t - N[d] // 2) / osN[d]) ** 2)
-            w = w * (s / snp._np_sinh(s))
-        return LF(C(w))
+            w = w * (LF(C(s)) / LF(C(snp._np_sinh(s))))      # array division of the engine: x * (1/y)
+        return w
     return el
 
 
@@ -195,6 +198,8 @@ def nvariants(tier):
 def _setup(v):
     nd = v["ndim"]
     N = linops._shape("n", nd)
+    for e in N:
+        core.assume(e >= 2)        # unit image extents: summation matcher limit -> native probe only (BOUNDS)
     bt = linops._shape("bt", v.get("nbatch", 0))
     P = linops._shape("p", v.get("pts_rank", 1))
     coord = SArr.input("coord", P + [nd], valued="real")
@@ -243,7 +248,7 @@ def job_nufft(v, timeout_ms):
         for sfx, g in adjoint_goals(fk, at, "x", "y", k, t):
             obs.append(("C06:nufft_adjoint-is-the-exact-adjoint[%s]" % sfx, box(k, osh) + box(t, ish), g))
         with core.spec_side():
-            want = spec_nufft(x, coord, Sym(z3.RealVal("5/4")) if os_ is None else os_, 4 if w is None else w)
+            want = spec_nufft(x, coord, 1.25 if os_ is None else os_, 4 if w is None else w)
         for sfx, g in lf_equal_goals(fk, want.elem(tuple(k))):
             obs.append(("C06:nufft==apodise,scale,pad,DFT,KB-interpolate[%s]" % sfx, box(k, osh), g))
         return obs
